@@ -416,9 +416,13 @@ func (w *World) forge() {
 		resign(&pb, n-1, last, x.Creds[0], x.IA)
 	case "append":
 		// y = the receiver of the honest beacon appends an entry of its own towards one of its
-		// children / core neighbours; signed with its own key (authentic) or with a foreign key
+		// neighbours; signed with its own key (authentic) or with a foreign key
 		y := m.To
 		ids := y.ifsOfType(topology.Child, topology.Core)
+		if r.Chance("forge.append.anylink", 1, 2) {
+			// ... or upwards / across a peering link, where no honest AS ever sends beacons
+			ids = y.ifIDs
+		}
 		if len(ids) == 0 {
 			return
 		}
